@@ -337,6 +337,7 @@ def explore(harness, *, max_paths=1000, deadline=None, hints=(), range_bound=2, 
     work = [list(p) for p in (first_prefixes or [[]])]
     t0 = time.perf_counter()
     explored = 0
+    retried = set()
     while work:
         if explored >= max_paths or (deadline is not None and time.time() > deadline):
             stats.capped = True
@@ -401,8 +402,16 @@ def explore(harness, *, max_paths=1000, deadline=None, hints=(), range_bound=2, 
         except PathAbort:
             stats.aborted += 1
         except Unsupported as e:
-            stats.unsupported += 1
             msg = str(e)[:160]
+            key = tuple(map(repr, prefix))
+            if msg.startswith("non-deterministic replay") and key not in retried:
+                # re-execution along a recorded prefix diverged (a model-derived hint that was not recorded, or a
+                # transient solver give-up): try the prefix once more before giving the path up
+                retried.add(key)
+                work.append(prefix)
+                Ctx.cur = None
+                continue
+            stats.unsupported += 1
             stats.unsupported_msgs[msg] = stats.unsupported_msgs.get(msg, 0) + 1
         except z3.Z3Exception as e:
             stats.unsupported += 1
